@@ -17,7 +17,18 @@
      square root of its squared length.
    * `qr_lengths_ok sq rows cs m` — the oracle also returned a square root of the squared length
      of every reflected sub-column; `posdef B` — 0 < x^T B x for every x <> 0.
-   Everything the property asks is proved: soundness, rejection and COMPLETENESS of Cholesky
+   * `ldlt_zero_pivot_at ops a j` (Proofs/C08P11.v) — the routine's run over the first j columns
+     succeeds with partial factors (j columns of L, pivots d_0 .. d_{j-1}) that satisfy the LDL^T
+     recurrences `cols_ok` (every d_k <> 0, d_k = a_kk - sum_{m<k} l_km^2 d_m, l_ik = (a_ik -
+     sum_{m<k} l_im l_km d_m) * (1/d_k)), and the NEXT pivot a_jj - sum_{k<j} l_jk^2 d_k is zero.
+   Session 3: LDL^T absence is now characterised in BOTH directions (C08_ldlt_absent_iff_zero_pivot,
+   C08_ldlt_present_iff_no_zero_pivot; only hypothesis: `==` decides equality) and LDL^T is
+   COMPLETE: every square symmetric positive definite input over any real field has a present
+   result (C08_ldlt_complete; Proofs/C08P12.v, C08P13.v: a zero pivot at column j would make the
+   leading (j+1) x (j+1) block W D W^T with W of only j columns, hence singular).  Still not a
+   theorem: "never a panic" (the model's division is total; carried by the correspondence on the
+   element type StrictRat whose `/` panics on 0).
+   Everything else the property asks is proved: soundness, rejection and COMPLETENESS of Cholesky
    (present <-> positive definite, for symmetric square inputs over a real closed field),
    LDL^T soundness / rejection, and for QR: shapes, absence <-> N > M, Q^T Q = 1, Q R = A and R
    UPPER TRIANGULAR, both for regular runs over any real field with any oracle and — over a real
@@ -29,7 +40,7 @@ From Coq Require Import PeanoNat List.
 From mathcomp Require Import all_ssreflect all_algebra.
 From EasyML Require Import Base.Sx Model.Num Model.LinAlg Model.Decomp
      Proofs.C07P1 Proofs.C08P1 Proofs.C08P2 Proofs.C08P3 Proofs.C08P5 Proofs.C08P7 Proofs.C08P4 Proofs.C08P6 Proofs.C08P8 Proofs.C08P9
-     Proofs.C08P10 Proofs.C08Ex.
+     Proofs.C08P10 Proofs.C08Ex Proofs.C08P11 Proofs.C08P12 Proofs.C08P13.
 Import GRing.Theory Num.Theory.
 Local Open Scope ring_scope.
 
@@ -105,6 +116,29 @@ Theorem C08_ldlt_rejects : forall (R : Type) (ops : numops R) (lt : R -> R -> Pr
   mrows a <> mcols a \/ ((1 <= mrows a)%coq_nat /\ mget ops a 0 0 = nzero ops) \/
   (~ exists l d, ldlt_factors ops a l d) -> ldlt ops a = None.
 Proof. exact @ldlt_rejects_b. Qed.
+
+(* LDL^T is absent EXACTLY when the input is not square or a zero pivot is met at some column j
+   (after j successful columns) — both directions; hence present exactly when the input is square
+   and no column meets a zero pivot.  Only hypothesis: the dictionary's == decides equality. *)
+Theorem C08_ldlt_absent_iff_zero_pivot : forall (R : Type) (ops : numops R),
+  (forall x y : R, neqb ops x y = true <-> x = y) -> forall a : list (list R),
+  ldlt ops a = None <->
+  (mrows a <> mcols a \/ exists j, (j < mrows a)%coq_nat /\ ldlt_zero_pivot_at ops a j).
+Proof. exact @ldlt_absent_iff_zero_pivot. Qed.
+
+Theorem C08_ldlt_present_iff_no_zero_pivot : forall (R : Type) (ops : numops R),
+  (forall x y : R, neqb ops x y = true <-> x = y) -> forall a : list (list R),
+  (exists l d, ldlt ops a = Some (l, d)) <->
+  (mrows a = mcols a /\ forall j, (j < mrows a)%coq_nat -> ~ ldlt_zero_pivot_at ops a j).
+Proof. exact @ldlt_present_iff_no_zero_pivot. Qed.
+
+(* LDL^T COMPLETENESS, any real field (the square-root oracle sq of the dictionary is not used by
+   LDL^T): a square, symmetric, positive definite input has a present result — with
+   C08_ldlt_sound: unit lower triangular L, diagonal D with non-zero pivots, L D L^T = A *)
+Theorem C08_ldlt_complete : forall (F : realFieldType) (sq : F -> F) (a : list (list F)),
+  mrows a = mcols a -> C08P1.symmetric (rops sq) a (mrows a) ->
+  posdef (mxo sq (mrows a) (mrows a) a) -> exists l d, ldlt (rops sq) a = Some (l, d).
+Proof. exact @ldlt_complete. Qed.
 
 (* QR, any dictionary: absent exactly when there are more columns than rows; otherwise Q is
    rows x rows and R is rows x columns; a 1 x 1 input gives Q = 1, R = the input *)
@@ -200,6 +234,20 @@ Example C08_nonvacuous_triangular :
   qr_lengths_ok sq_example 2 (List.seq 0 (Nat.min (2 - 1) 1)) m_example.
 Proof. exact qr_example_lengths. Qed.
 
+(* the prime-field dictionary satisfies the hypothesis of the two LDL^T iff theorems, and the rank-1
+   input zero_pivot_example = [[1,1],[1,1]] meets a zero pivot at its LAST column *)
+Example C08_nonvacuous_zero_pivot :
+  (forall x y : BinNums.Z, neqb Fpops x y = true <-> x = y) /\
+  ldlt_zero_pivot_at Fpops zero_pivot_example 1 /\ ldlt Fpops zero_pivot_example = None.
+Proof. split; [exact Fpops_eqb_spec|exact ldlt_zero_pivot_example]. Qed.
+
+(* the hypotheses of C08_ldlt_complete over the rationals: spd_example = [[1]] *)
+Example C08_nonvacuous_ldlt_complete : forall sq : rat -> rat,
+  mrows spd_example = mcols spd_example /\
+  C08P1.symmetric (rops sq) spd_example (mrows spd_example) /\
+  posdef (mxo sq (mrows spd_example) (mrows spd_example) spd_example).
+Proof. exact spd_example_ok. Qed.
+
 Print Assumptions C08_cholesky_sound.
 Print Assumptions C08_cholesky_rejects.
 Print Assumptions C08_cholesky_rejects_first_pivot.
@@ -210,6 +258,9 @@ Print Assumptions C08_cholesky_present_iff_posdef.
 Print Assumptions C08_cholesky_next_pivot_positive.
 Print Assumptions C08_ldlt_sound.
 Print Assumptions C08_ldlt_rejects.
+Print Assumptions C08_ldlt_absent_iff_zero_pivot.
+Print Assumptions C08_ldlt_present_iff_no_zero_pivot.
+Print Assumptions C08_ldlt_complete.
 Print Assumptions C08_qr_absent_iff.
 Print Assumptions C08_qr_shapes.
 Print Assumptions C08_qr_1x1.
